@@ -190,11 +190,16 @@ func rewriteRange(r *ast.RangeStmt) bool {
 }
 
 func isSimrtCall(s ast.Stmt) bool {
-	es, ok := s.(*ast.ExprStmt)
-	if !ok {
+	var x ast.Expr
+	switch st := s.(type) {
+	case *ast.ExprStmt:
+		x = st.X
+	case *ast.SwitchStmt: // switch simrt.Pick(...) {...}
+		x = st.Tag
+	default:
 		return false
 	}
-	c, ok := es.X.(*ast.CallExpr)
+	c, ok := x.(*ast.CallExpr)
 	if !ok {
 		return false
 	}
@@ -238,8 +243,9 @@ var selectsRewritten, gosRewritten = 0, 0
 //		simrt.Idle(site)            // blocked until another task has made a step
 //	}
 //
-// Cases are tried in source order, so which ready case is taken is a function of the schedule (Go's select picks
-// among ready cases at random).  Selects whose bodies `break` out of the select are left alone.
+// Which case is looked at first is chosen by the scheduler (simrt.Pick), then the cases are tried in source order,
+// so which ready case is taken is a function of the schedule (Go's select picks among ready cases at random).
+// Selects whose bodies `break` out of the select are left alone.
 func rewriteSelect(fset *token.FileSet, st *ast.SelectStmt) ast.Stmt {
 	for _, c := range st.Body.List {
 		cc := c.(*ast.CommClause)
@@ -250,6 +256,18 @@ func rewriteSelect(fset *token.FileSet, st *ast.SelectStmt) ast.Stmt {
 	selectsRewritten++
 	label := ast.NewIdent(fmt.Sprintf("_simsel%d", selectsRewritten))
 	var body []ast.Stmt
+	mk := func(cc *ast.CommClause) ast.Stmt {
+		one := &ast.CommClause{Case: cc.Case, Colon: cc.Colon, Comm: cc.Comm, Body: append(append([]ast.Stmt{}, cc.Body...), &ast.BranchStmt{TokPos: cc.End(), Tok: token.BREAK, Label: ast.NewIdent(label.Name)})}
+		return &ast.SelectStmt{Select: cc.Case, Body: &ast.BlockStmt{Lbrace: cc.Case, Rbrace: cc.End(), List: []ast.Stmt{one, &ast.CommClause{Case: cc.End(), Colon: cc.End()}}}}
+	}
+	if n := len(st.Body.List); n > 1 {
+		// which case is looked at first is the scheduler's choice (simrt.Pick): Go's select picks among ready cases at random
+		sw := &ast.SwitchStmt{Switch: st.Pos(), Tag: simCall("Pick", newSite(fset, st.Pos(), "pick"), &ast.BasicLit{Kind: token.INT, Value: fmt.Sprint(n)}), Body: &ast.BlockStmt{Lbrace: st.Pos(), Rbrace: st.Pos()}}
+		for i := 1; i < n; i++ {
+			sw.Body.List = append(sw.Body.List, &ast.CaseClause{Case: st.Pos(), Colon: st.Pos(), List: []ast.Expr{&ast.BasicLit{Kind: token.INT, Value: fmt.Sprint(i)}}, Body: []ast.Stmt{mk(st.Body.List[i].(*ast.CommClause))}})
+		}
+		body = append(body, sw)
+	}
 	for _, c := range st.Body.List {
 		cc := c.(*ast.CommClause)
 		// (positions are carried over so that the printer keeps the file's comments where they were)
